@@ -7,7 +7,9 @@
    Domain [wf_tree t]: every category is a well-formed value in the sense of C05 ([wf puncts]); every leaf token has a
    'word' without blank (U+0020) and without backslash; its 'pos' (or auto_of's default "POS") has no blank.
    Nothing else is assumed: words may be empty, may be or contain brackets, angle characters, quotes, any other code point
-   (e.g. words ending in ")[conj]", which the reader's category repair must leave alone). *)
+   (e.g. words ending in ")[conj]", which the reader's category repair must leave alone).
+   Not modelled: how Python cuts the file into lines.  [read_auto] takes the list of lines; a word containing a line-break
+   character (LF, CR) would be cut by the file iterator before the reader sees it - the harness keeps such words out. *)
 From Coq Require Import List NArith Bool.
 Import ListNotations.
 Require Import Cat CatFacts Tree GenTables GenAuto Auto AutoSpec AutoProofs.
@@ -86,6 +88,14 @@ Example ex_print : print_auto ex_tree =
   (* (<T S[dcl] 1 2> (<T NP 0 1> (<L N -LRB- -LRB- -LRB- N>) ) (<L S[dcl]\NP POS POS a-LAB-b)[conj] S[dcl]\NP>) ) *)
 Proof. vm_compute. reflexivity. Qed.
 Example ex_read : read_printed ex_guess (print_auto ex_tree) = Some (canon ex_guess ex_tree).
+Proof. vm_compute. reflexivity. Qed.
+Example ex_read_file :
+  match print_auto ex_tree with
+  | Some p => read_auto ex_guess [[73;68;61;49;10]; [32] ++ p ++ [32;10]]     (* "ID=1\n", " <line> \n" *)
+  | None => None
+  end = Some [([73;68;61;49], tokens (canon ex_guess ex_tree), canon ex_guess ex_tree)].
+Proof. vm_compute. reflexivity. Qed.
+Example ex_no_id_line : match print_auto ex_tree with Some p => read_auto ex_guess [p] | None => None end = None.
 Proof. vm_compute. reflexivity. Qed.
 Example ex_canon : canon ex_guess ex_tree =
   Bin ex_S [98;97] [60] false
